@@ -29,6 +29,8 @@ pub uninterp spec fn converted(m: &MithrilCertificate, c: &Certificate) -> bool;
 /// SHA-256 of the certificate's content (Certificate::try_compute_hash)
 pub uninterp spec fn content_hash(c: &Certificate) -> Seq<char>;
 pub uninterp spec fn is_genesis_kind(c: &Certificate) -> bool;
+/// the common verifier's verify_certificate returned Ok for this certificate
+pub uninterp spec fn accepted_some(c: &Certificate) -> bool;
 
 #[verifier::external_body] pub struct InternalVerifier { _p: core::marker::PhantomData<u8> }
 #[verifier::external_body] pub struct Retriever { _p: core::marker::PhantomData<u8> }
@@ -40,13 +42,16 @@ impl VerifierCache {
     pub fn get_previous_hash(&self, hash: &str) -> (r: Result<Option<String>, MithrilError>)
         ensures r is Ok ==> (r->Ok_0 is Some) == (cached_previous(self, hash@) is Some), r is Ok && r->Ok_0 is Some ==> r->Ok_0->Some_0@ == cached_previous(self, hash@)->Some_0
     { unimplemented!() }
+    /// only a link of a certificate the common verifier has ACCEPTED may be stored (the cache's entries are trusted later)
     #[verifier::external_body]
-    pub fn store_validated_certificate(&self, hash: &String, previous_hash: &String) -> (r: Result<(), MithrilError>) { unimplemented!() }
+    pub fn store_validated_certificate(&self, hash: &String, previous_hash: &String) -> (r: Result<(), MithrilError>)
+        requires exists|c: Certificate| #[trigger] accepted_some(&c) && c.hash@ == hash@ && c.previous_hash@ == previous_hash@
+    { unimplemented!() }
 }
 impl InternalVerifier {
     #[verifier::external_body]
     pub fn verify_certificate(&self, c: &Certificate) -> (r: Result<Option<Certificate>, MithrilError>)
-        ensures r is Ok && r->Ok_0 is None ==> accepted_as_root(c), r is Ok && r->Ok_0 is Some ==> accepted_link(c, &r->Ok_0->Some_0)
+        ensures r is Ok && r->Ok_0 is None ==> accepted_as_root(c), r is Ok && r->Ok_0 is Some ==> accepted_link(c, &r->Ok_0->Some_0), r is Ok ==> accepted_some(c)
     { unimplemented!() }
 }
 impl Retriever {
